@@ -250,4 +250,485 @@ theorem JobOK.replace_proc (w : WF inst) {s s' : State} (hI : StructInv inst s) 
           exact hnk ⟨hkey.1.symm, hkey.2.symm⟩
         · exact hnp target htm hn
 
+/-- after a record in progress only idle records follow -/
+theorem OpsOK_adj_proc_idle {now : Int} {l : List OpState} (h : OpsOK now none l) {a b : OpState} (hadj : AdjL l a b)
+    (ha : a.st = .processing) : b.st = .idle := by
+  obtain ⟨l1, l2, rfl⟩ := hadj
+  have h1 := OpsOK_prefix_done a (by rw [ha]; simp) (b :: l2) l1 none h
+  have h2 := OpsOK_after a (by rw [ha]; simp) (b :: l2) l1 none h1 h
+  exact h2 b (by simp)
+
+/-- the record in progress is finished now and the job put into the post-buffer of its machine -/
+theorem JobOK.replace_done (w : WF inst) {s s' : State} (hI : StructInv inst s) {j J' : JobState} {target : OpState}
+    (hj : j ∈ s.jobs) (hops : OpsOK s.time none j.ops) (h : JobOK inst s j)
+    (htm : target ∈ j.ops) (htp : target.st = .processing)
+    (hJ : J'.ops = (j.replaceOp { target with stop := some s.time, st := .done }).ops)
+    (hloc : ∃ m' ∈ s'.machines, m'.id = target.machine ∧ J'.loc = m'.post.id) : JobOK inst s' J' := by
+  have hf : ∀ x ∈ j.ops,
+      (if (x.job == target.job && x.idx == target.idx) = true then { target with stop := some s.time, st := .done } else x) =
+          { target with stop := some s.time, st := .done } ∧ x = target ∨
+      (if (x.job == target.job && x.idx == target.idx) = true then { target with stop := some s.time, st := .done } else x) = x ∧
+          x ≠ target := by
+    intro x hx
+    by_cases hk : x.job = target.job ∧ x.idx = target.idx
+    · left
+      exact ⟨by simp [hk.1, hk.2], key_unique_in_job w hI hj hx htm hk⟩
+    · right
+      refine ⟨?_, fun e => hk (by rw [e]; exact ⟨rfl, rfl⟩)⟩
+      have : (x.job == target.job && x.idx == target.idx) = false := by
+        simp only [Bool.and_eq_false_iff, beq_eq_false_iff_ne]
+        by_cases h1 : x.job = target.job
+        · right; intro h2; exact hk ⟨h1, h2⟩
+        · left; exact h1
+      simp [this]
+  have hnd := hI.shape.ops_key_nodup w hj
+  constructor
+  · intro a' b' hadj ha' e he d hd hb' x hx
+    rw [hJ] at hadj
+    simp only [JobState.replaceOp] at hadj
+    obtain ⟨a, b, hab, rfl, rfl⟩ := adjL_map hadj
+    obtain ⟨hma, hmb⟩ := adjL_mem hab
+    rcases hf a hma with ⟨e1, rfl⟩ | ⟨e1, hne⟩
+    · -- the finished record is followed by an idle one
+      exfalso
+      have hbi := OpsOK_adj_proc_idle hops hab htp
+      rcases hf b hmb with ⟨_, rfl⟩ | ⟨e2, _⟩
+      · exact adjL_key_ne hab hnd ⟨rfl, rfl⟩
+      · rw [e2] at hb'; exact hb' hbi
+    · rw [e1] at ha' he hd
+      rcases hf b hmb with ⟨e2, rfl⟩ | ⟨e2, _⟩
+      · rw [e2] at hx hd
+        exact h.start a b hab ha' e he d hd (by rw [htp]; simp) x hx
+      · rw [e2] at hb' hx hd
+        exact h.start a b hab ha' e he d hd hb' x hx
+  · intro a' b' hadj ha' e he d hd hb'
+    rw [hJ] at hadj
+    simp only [JobState.replaceOp] at hadj
+    obtain ⟨a, b, hab, rfl, rfl⟩ := adjL_map hadj
+    obtain ⟨hma, hmb⟩ := adjL_mem hab
+    rcases hf a hma with ⟨e1, rfl⟩ | ⟨e1, _⟩
+    · obtain ⟨m', hm', e1', e2'⟩ := hloc
+      exact Or.inl ⟨m', hm', by rw [e1, e1'], e2'⟩
+    · exfalso
+      rw [e1] at ha'
+      rcases hf b hmb with ⟨e2, _⟩ | ⟨e2, _⟩
+      · rw [e2] at hb'; cases hb'
+      · rw [e2] at hb'
+        exact (OpsOK_adj_done_idle hops hab ha' hb').1 target htm htp
+
+/-! ## where a job is -/
+
+theorem loc_in_store (w : WF inst) {s : State} (hI : StructInv inst s) {j : JobState} (hj : j ∈ s.jobs) {b : BufState}
+    (hb : b ∈ allBufStates s) (h : j.loc = b.id) : j.id ∈ b.store := by
+  have := hI.cons.located (j.id, j.loc) (List.mem_map.mpr ⟨j, hj, rfl⟩)
+  simp only at this
+  rw [h, storeAt_of_mem (hI.shape.bufNodup w) hb] at this
+  exact this
+
+theorem stored_loc (w : WF inst) {s : State} (hI : StructInv inst s) {j : JobState} (hj : j ∈ s.jobs) {b : BufState}
+    (hb : b ∈ allBufStates s) (h : j.id ∈ b.store) : j.loc = b.id := by
+  have hst : j.id ∈ storeAt s b.id := by rw [storeAt_of_mem (hI.shape.bufNodup w) hb]; exact h
+  have := hI.cons.stored b.id j.id hst
+  obtain ⟨j', hj', e⟩ := List.mem_map.mp this
+  simp only [Prod.mk.injEq] at e
+  have : j' = j := eq_of_mem_of_key_eq (key := fun (y : JobState) => y.id) (hI.shape.jobsNodup w) hj' hj e.1
+  rw [← this]; exact e.2
+
+/-- the AGV in whose buffer a job lies is in transit and has claimed it -/
+theorem carrier_claims (w : WF inst) {s : State} (hI : StructInv inst s) (hP : AgvFull inst s) {j : JobState} (hj : j ∈ s.jobs)
+    {t : TransportState} (ht : t ∈ s.transports) (h : j.loc = t.buffer.id) : t.st = .transit ∧ t.job = some j.id := by
+  have hin := loc_in_store w hI hj (mem_allBufs_of_transport ht) h
+  have hst : t.st = .transit := by
+    apply Classical.byContradiction
+    intro hne
+    have := hP.agv.empty t ht hne
+    rw [this] at hin; cases hin
+  exact ⟨hst, hP.route.transitOwn t ht hst j.id hin⟩
+
+/-- the job is picked up: it lies on the AGV now, which arrives after the travel time -/
+theorem JobOK.pickup (w : WF inst) {s s' : State} (hI : StructInv inst s) (hP : AgvFull inst s) {j : JobState}
+    {t0 t' : TransportState} (hj : j ∈ s.jobs) (hops : OpsOK s.time none j.ops) (h : JobOK inst s j)
+    (ht0 : t0 ∈ s.transports) (hst : t0.st ≠ .transit) (hclaim : t0.job = some j.id)
+    {src dst : Loc} {tt : Int} {r r' : Rng}
+    (hsrc : (∃ fb ∈ s.buffers, fb.id = j.loc) ∨
+      (∃ ms ∈ s.machines, src = .m ms.id ∧ (j.loc = ms.pre.id ∨ j.loc = ms.buffer.id ∨ j.loc = ms.post.id)))
+    (hdst : dropOK inst j JobState.nextNotDone? dst)
+    (htt : travelTimeFromSpec orc inst r src dst = .ok (tt, r'))
+    (ht' : t' ∈ s'.transports) (hb : t'.buffer.id = t0.buffer.id) (hocc : t'.occ = .at (s.time + tt)) :
+    JobOK inst s' (j.at t0.buffer.id) := by
+  have hs := hI.shape
+  refine ⟨h.start, ?_⟩
+  intro a b hadj ha e he d hd hbi
+  have hadj' : AdjL j.ops a b := hadj
+  obtain ⟨_, _, hfind⟩ := OpsOK_adj_done_idle hops hadj' ha hbi
+  have hle : e ≤ s.time := by
+    obtain ⟨x0, y0, _, hy0, _, h2⟩ := (OpsOK_mem _ _ hops a (adjL_mem hadj').1).1 ha
+    rw [he] at hy0; simp at hy0; omega
+  rcases h.wait a b hadj' ha e he d hd hbi with ⟨m, hm, e1, e2⟩ | ⟨t, ht, e1, _⟩ | ⟨m, hm, _, e2, _⟩
+  · -- in the post-buffer of `a`'s machine: the source is that machine, the destination `b`'s
+    have hsrc' : src = .m a.machine := by
+      rcases hsrc with ⟨fb, hfb, e3⟩ | ⟨ms, hms, e3, e4⟩
+      · exact absurd (e3.trans e2) ((ids_parts hs w).1 fb hfb m hm).2.2
+      · have : ms = m := machine_of_buf_id w hs hms hm (x := j.loc) e4 (Or.inr (Or.inr e2))
+        rw [e3, this, e1]
+    have hdst' : dst = .m b.machine := by
+      rcases hdst with ⟨hno, _⟩ | ⟨_, op, hop, e3⟩
+      · exfalso
+        unfold JobState.noOpIdle at hno
+        have := List.all_eq_true.mp hno b (adjL_mem hadj').2
+        rw [hbi] at this; simp at this
+      · unfold JobState.nextNotDone? at hop
+        rw [hfind] at hop
+        simp at hop; subst hop; exact e3
+    have : tt = d := by
+      rw [hsrc', hdst'] at htt
+      unfold travelTimeFromSpec at htt
+      unfold detTravel at hd
+      simp only [hd, TimeCfg.updRead, except_pure, Except.ok.injEq, Prod.mk.injEq] at htt
+      exact htt.1.symm
+    exact Or.inr (Or.inl ⟨t', ht', by simp [JobState.at, hb], s.time + tt, hocc, by omega⟩)
+  · exfalso
+    obtain ⟨h1, h2⟩ := carrier_claims w hI hP hj ht e1
+    have hid := hP.agv.unique t ht t0 ht0 j.id h2 hclaim
+    have : t = t0 := eq_of_mem_of_key_eq (key := fun (y : TransportState) => y.id) (hs.trNodup w) ht ht0 hid
+    rw [this] at h1; exact hst h1
+  · exfalso
+    have hin := loc_in_store w hI hj (mem_allBufs_of_machine hm).1 e2
+    exact hP.route.preUnclaimed m hm j.id hin t0 ht0 hclaim
+
+/-- the job is delivered into the pre-buffer of the machine of its next operation -/
+theorem JobOK.deliver (w : WF inst) {s s' : State} (hI : StructInv inst s) (hP : AgvFull inst s) {j : JobState}
+    {t0 : TransportState} {ms ms' : MachineState} (hj : j ∈ s.jobs) (hops : OpsOK s.time none j.ops) (h : JobOK inst s j)
+    (ht0 : t0 ∈ s.transports) (hin : j.id ∈ t0.buffer.store) (hms : ms ∈ s.machines)
+    {cur : Loc} {pick : Nat} (hloc : t0.loc = .route cur pick (.m ms.id))
+    (hdue : ∀ o, t0.occ = .at o → o ≤ s.time)
+    (hms' : ms' ∈ s'.machines) (hk : mKey ms' = mKey ms) (htime : s.time ≤ s'.time) :
+    JobOK inst s' (j.at ms.pre.id) := by
+  have hs := hI.shape
+  refine ⟨h.start, ?_⟩
+  intro a b hadj ha e he d hd hbi
+  have hadj' : AdjL j.ops a b := hadj
+  obtain ⟨_, hfind, _⟩ := OpsOK_adj_done_idle hops hadj' ha hbi
+  have hjl := stored_loc w hI hj (mem_allBufs_of_transport ht0) hin
+  obtain ⟨hst0, hown0⟩ := carrier_claims w hI hP hj ht0 hjl
+  simp only [mKey, Prod.mk.injEq] at hk
+  -- the destination is the machine of `b`
+  have hmb : ms.id = b.machine := by
+    obtain ⟨c, p, dr, e1, hdrop⟩ := hP.route.route t0 ht0 j.id hown0 j hj rfl
+    rw [hloc] at e1
+    simp only [TLoc.route.injEq] at e1
+    rcases hdrop with ⟨_, o, _, e3⟩ | ⟨_, op, hop, e3⟩
+    · rw [← e1.2.2] at e3; cases e3
+    · unfold JobState.nextIdle? at hop
+      rw [hfind] at hop
+      simp at hop; subst hop
+      rw [← e1.2.2] at e3
+      simpa using e3
+  rcases h.wait a b hadj' ha e he d hd hbi with ⟨m, hm, _, e2⟩ | ⟨t, ht, e1, o, e2, e3⟩ | ⟨m, hm, _, e2, _⟩
+  · exact absurd (e2.symm.trans hjl) ((ids_parts hs w).2.2 m hm t0 ht0).2.2
+  · obtain ⟨_, h2⟩ := carrier_claims w hI hP hj ht e1
+    have hid := hP.agv.unique t ht t0 ht0 j.id h2 hown0
+    have : t = t0 := eq_of_mem_of_key_eq (key := fun (y : TransportState) => y.id) (hs.trNodup w) ht ht0 hid
+    subst this
+    have := hdue o e2
+    exact Or.inr (Or.inr ⟨ms', hms', by rw [hk.1, hmb], by simp [JobState.at, hk.2.1], by omega⟩)
+  · exact absurd (e2.symm.trans hjl) ((ids_parts hs w).2.2 m hm t0 ht0).1
+
+/-- a job delivered to an output buffer has no idle operation: nothing to wait for -/
+theorem JobOK.deliver_out {s s' : State} {j : JobState} (h : JobOK inst s j) (hno : j.noOpIdle = true) (l : Nat) :
+    JobOK inst s' (j.at l) := by
+  refine ⟨h.start, ?_⟩
+  intro a b hadj _ _ _ _ _ hbi
+  exfalso
+  have hadj' : AdjL j.ops a b := hadj
+  unfold JobState.noOpIdle at hno
+  have := List.all_eq_true.mp hno b (adjL_mem hadj').2
+  rw [hbi] at this; simp at this
+
+/-! ## one transition -/
+
+/-- batch side condition: a delivery is due, and nothing earlier in the batch sends the same AGV off -/
+structure ArrGS (s : State) (L : List Transition) : Prop where
+  due : ∀ tr ∈ L, tr.new = .t .outage → ∀ t ∈ s.transports, tr.comp = .t t.id → t.st = .transit →
+    ∀ o, t.occ = .at o → o ≤ s.time
+  order : L.Pairwise (fun a b => b.new = .t .outage → a.comp = b.comp → a.new = .t .waitingpickup)
+
+theorem ArrGS.tail {s : State} {tr : Transition} {R : List Transition} (h : ArrGS s (tr :: R)) : ArrGS s R :=
+  ⟨fun t ht => h.due t (by simp [ht]), (List.pairwise_cons.mp h.order).2⟩
+
+/-- what one AGV transition does, in enough detail for the travel invariant -/
+inductive AgvEffectT (orc : Oracle) (inst : Instance) (s s' : State) (r : Rng) (tr : Transition) (t0 t' : TransportState) : Prop
+  | still : t0.st ≠ .transit → t'.st ≠ .transit → s'.jobs = s.jobs → AgvEffectT orc inst s s' r tr t0 t'
+  | pickup (j : JobState) (src dst : Loc) (tt : Int) (r1 : Rng) : tr.new = .t .transit → t0.st ≠ .transit →
+      j ∈ s.jobs → tr.job = some j.id → dropOK inst j JobState.nextNotDone? dst →
+      travelTimeFromSpec orc inst r src dst = .ok (tt, r1) →
+      ((∃ fb ∈ s.buffers, fb.id = j.loc) ∨
+        (∃ ms ∈ s.machines, src = .m ms.id ∧ (j.loc = ms.pre.id ∨ j.loc = ms.buffer.id ∨ j.loc = ms.post.id))) →
+      t'.occ = .at (s.time + tt) → s'.jobs = (s.replaceJob (j.at t0.buffer.id)).jobs → AgvEffectT orc inst s s' r tr t0 t'
+  | deliverM (j : JobState) (cur : Loc) (pick : Nat) (ms : MachineState) : tr.new = .t .outage →
+      t0.loc = .route cur pick (.m ms.id) → ms ∈ s.machines → j ∈ s.jobs → j.id ∈ t0.buffer.store →
+      s'.jobs = (s.replaceJob (j.at ms.pre.id)).jobs → AgvEffectT orc inst s s' r tr t0 t'
+  | deliverB (j : JobState) (cur : Loc) (pick : Nat) (b : BufState) : tr.new = .t .outage →
+      t0.loc = .route cur pick (.b b.id) → j ∈ s.jobs → j.id ∈ t0.buffer.store →
+      s'.jobs = (s.replaceJob (j.at b.id)).jobs → AgvEffectT orc inst s s' r tr t0 t'
+
+theorem agv_effectT {s s' : State} {r r' : Rng} {tr : Transition} {tid : Nat}
+    (hc : tr.comp = .t tid) (h : applyTransition orc inst s r tr = .ok (s', r')) :
+    ∃ t0 t', t0 ∈ s.transports ∧ t0.id = tid ∧ t'.id = t0.id ∧ t'.buffer.id = t0.buffer.id ∧
+      s'.transports = (s.replaceTransport t').transports ∧
+      (tr.new = .t .waitingpickup → t'.st ≠ .transit) ∧ AgvEffectT orc inst s s' r tr t0 t' := by
+  unfold applyTransition at h
+  simp only [hc] at h
+  obtain ⟨t0, ht0, h⟩ := except_bind_eq_ok h
+  unfold handleTransportTransition at h
+  obtain ⟨t, ht, h⟩ := except_bind_eq_ok h
+  rw [ht0] at ht; simp at ht; subst ht
+  have hmem := getTransport_ok ht0
+  obtain ⟨tc, _, h⟩ := except_bind_eq_ok h
+  split at h
+  · simp at h
+  · obtain ⟨hd, hh, h⟩ := except_bind_eq_ok h
+    unfold agvHandlerOf at hh
+    cases hn : tr.new with
+    | m ns => simp [hn] at hh
+    | t ns =>
+      simp only [hn] at hh
+      cases hah : agvHandler t0.st ns with
+      | none => simp [hah] at hh
+      | some hd' =>
+        simp [hah] at hh; subst hh
+        cases hd' with
+        | idleToWorking =>
+          have hst := agvHandler_idleToWorking hah
+          obtain ⟨j, cur, target, src, bc, c, _, _, _, _, _, _, _, _, _, rfl⟩ := idleToWorking_spec h
+          exact ⟨t0, t0.toPickup cur bc.id target (s.time + c.cur orc r) j.id, hmem.1, hmem.2, rfl, rfl, rfl,
+            (fun _ => by simp [TransportState.toPickup]), .still (by rw [hst.1]; simp) (by simp [TransportState.toPickup]) rfl⟩
+        | pickupToWaitingpickup =>
+          have hst := agvHandler_pickupToWaiting hah
+          obtain ⟨occ, _, _, _, rfl⟩ := pickupToWaiting_spec h
+          exact ⟨t0, t0.toWaiting occ, hmem.1, hmem.2, rfl, rfl, rfl, (fun _ => by simp [TransportState.toWaiting]),
+            .still (by rw [hst.2]; simp) (by simp [TransportState.toWaiting]) rfl⟩
+        | waitingPickupToWaitingPickup =>
+          have hst := agvHandler_waitingToWaiting hah
+          obtain ⟨occ, _, _, rfl⟩ := waitingToWaiting_spec h
+          exact ⟨t0, t0.toWaiting occ, hmem.1, hmem.2, rfl, rfl, rfl, (fun _ => by simp [TransportState.toWaiting]),
+            .still (by rw [hst.2]; simp) (by simp [TransportState.toWaiting]) rfl⟩
+        | outageToIdle =>
+          have hst := agvHandler_outageToIdle hah
+          obtain ⟨_, rfl⟩ := agvOutageToIdle_spec h
+          exact ⟨t0, t0.toIdle, hmem.1, hmem.2, rfl, rfl, rfl, (fun _ => by simp [TransportState.toIdle]),
+            .still (by rw [hst.1]; simp) (by simp [TransportState.toIdle]) rfl⟩
+        | pickupToTransit =>
+          have hst := agvHandler_pickupToTransit hah
+          have hnt : t0.st ≠ .transit := by rcases hst.2 with e | e <;> rw [e] <;> simp
+          obtain ⟨j, src, dst, tt, bss1, bss2, hj, htj, hdrop, htt, _, hcase⟩ := pickupToTransit_spec h
+          refine ⟨t0, t0.toTransit (s.time + tt) j.id bss2, hmem.1, hmem.2, rfl, rfl, ?_,
+            (fun e => by rw [hst.1] at e; cases e), ?_⟩
+          · rcases hcase with ⟨fb, _, _, _, _, _, rfl⟩ | ⟨mid, ms, bs, ms', _, _, _, _, _, _, _, rfl⟩ <;> rfl
+          · rcases hcase with ⟨fb, _, _, hfb, hfid, _, rfl⟩ | ⟨mid, ms, bs, ms', e1, _, hms, e2, hbs, _, _, rfl⟩
+            · exact .pickup j src dst tt r' (by rw [hn, hst.1]) hnt hj htj hdrop htt (Or.inl ⟨fb, hfb, hfid⟩) rfl rfl
+            · refine .pickup j src dst tt r' (by rw [hn, hst.1]) hnt hj htj hdrop htt (Or.inr ⟨ms, hms, by rw [e1, e2], ?_⟩) rfl rfl
+              obtain ⟨hid, hwhich⟩ := bufOfMachine_ok hbs
+              rcases hwhich with rfl | rfl | rfl
+              · exact Or.inl hid.symm
+              · exact Or.inr (Or.inl hid.symm)
+              · exact Or.inr (Or.inr hid.symm)
+        | transitToOutage =>
+          have hst := agvHandler_transitToOutage hah
+          obtain ⟨j, cur, pick, drop, tc, outs, bss1, bss2, hj, _, hloc, hin, _, _, _, hcase⟩ := transitToOutage_spec h
+          refine ⟨t0, t0.toOutage j.id bss1 outs (s.time + occupiedFor outs) drop, hmem.1, hmem.2, rfl, rfl, ?_,
+            (fun e => by rw [hst.1] at e; cases e), ?_⟩
+          · rcases hcase with ⟨mid, ms, _, _, _, _, rfl⟩ | ⟨bid, b, _, _, _, _, rfl⟩ <;> rfl
+          · rcases hcase with ⟨mid, ms, e1, hms, e2, _, rfl⟩ | ⟨bid, b, e1, hb, e2, _, rfl⟩
+            · subst e2
+              exact .deliverM j cur pick ms (by rw [hn, hst.1]) (by rw [hloc, e1]) hms hj hin rfl
+            · subst e2
+              exact .deliverB j cur pick b (by rw [hn, hst.1]) (by rw [hloc, e1]) hj hin rfl
+
+/-- **One transition keeps the travel invariant** and the arrival guard of the rest of the batch. -/
+theorem applyTransition_travel (w : WF inst) {s s' : State} {r r' : Rng} {tr : Transition} {R : List Transition}
+    (hI : StructInv inst s) (hS : SchedInv s) (hP : AgvFull inst s) (hT : TravelInv inst s)
+    (hv : transitionValid s tr = .ok true) (hsafe : Safe s (tr :: R)) (hgs : FullGS s (tr :: R)) (harr : ArrGS s (tr :: R))
+    (h : applyTransition orc inst s r tr = .ok (s', r')) : TravelInv inst s' ∧ ArrGS s' R := by
+  have hI' := applyTransition_struct w hI hv h
+  have htime := applyTransition_time h
+  have hs := hI.shape
+  have hjn := hs.jobsNodup w
+  have hmt : ∀ m ∈ s.machines, ∃ m' ∈ s'.machines, mKey m' = mKey m := fun m hm => machine_transfer hs hI'.shape hm
+  have h0 := h
+  cases hc : tr.comp with
+  | b bid =>
+    unfold applyTransition at h
+    simp only [hc] at h
+    obtain ⟨_, _, h⟩ := except_bind_eq_ok h
+    simp at h
+  | m mid =>
+    have htr := (machine_effect w hI hc h0).2.1
+    refine ⟨?_, ?_⟩
+    · -- all jobs but one are untouched
+      have keep : ∀ j' ∈ s.jobs, JobOK inst s' j' := fun j' hj' =>
+        (hT j' hj').keep (by omega) hmt (fun t ht _ => ⟨t, by rw [htr]; exact ht, rfl, rfl⟩)
+      have one : ∀ (j J' : JobState), j ∈ s.jobs → J'.id = j.id → s'.jobs = (s.replaceJob J').jobs → JobOK inst s' J' →
+          TravelInv inst s' := by
+        intro j J' hj hid hjobs hJ j' hj'
+        rw [hjobs] at hj'
+        rcases (mem_replaceJob hjn hj hid j').mp hj' with rfl | ⟨hj0, _⟩
+        · exact hJ
+        · exact keep j' hj0
+      unfold applyTransition at h
+      unfold transitionValid at hv
+      simp only [hc] at h hv
+      obtain ⟨m0, hm0, h⟩ := except_bind_eq_ok h
+      obtain ⟨mv, hmv, hv⟩ := except_bind_eq_ok hv
+      rw [hm0] at hmv; simp at hmv; subst hmv
+      unfold handleMachineTransition at h
+      obtain ⟨m, hm, h⟩ := except_bind_eq_ok h
+      rw [hm0] at hm; simp at hm; subst hm
+      have hmem := getMachine_ok hm0
+      obtain ⟨hd, hh, h⟩ := except_bind_eq_ok h
+      unfold machineHandlerOf at hh
+      cases hn : tr.new with
+      | t ns => simp [hn] at hh
+      | m ns =>
+        simp only [hn] at hh
+        cases hmh : machineHandler m0.st ns with
+        | none => simp [hmh] at hh
+        | some hd' =>
+          simp [hmh] at hh; subst hh
+          cases hd' with
+          | idleToSetup =>
+            have hst := machineHandler_idleToSetup hmh
+            obtain ⟨j, op, oc, mc, sd, b1, b2, hj, htj, hjpre, hnn, _, hocj, hoci, _, _, _, _, rfl⟩ := idleToSetup_spec h
+            have hmach := valid_machine_job hjn hv (by simp [hst.1]) (by simp [hst.1]) j hj htj op hnn
+            have hopm : op ∈ j.ops := (find?_mem_ops hnn).1
+            have hjl := stored_loc w hI hj (mem_allBufs_of_machine hmem.1).1 hjpre
+            apply one j ((j.replaceOp (opRec oc s.time (s.time + sd) m0.id)).at m0.buffer.id) hj rfl rfl
+            exact (hT j hj).replace_proc w hI hj (hS.ops j hj) hopm ⟨by simp [opRec, hocj], by simp [opRec, hoci]⟩
+              (by simp [opRec, hmach]) (by simp [opRec]) (fun x hx => Or.inl (by simpa [opRec] using hx.symm)) (Or.inl hnn)
+              (fun _ => ⟨m0, hmem.1, hjl⟩) rfl
+          | setupToWorking =>
+            have hst := machineHandler_setupToWorking hmh
+            obtain ⟨j, op, oc, d, hj, htj, hjin, hnn, _, hocj, hoci, _, rfl⟩ := setupToWorking_spec h
+            have hmach := valid_machine_job hjn hv (by simp [hst.1]) (by simp [hst.1]) j hj htj op hnn
+            have hopm : op ∈ j.ops := (find?_mem_ops hnn).1
+            have hbusy : m0.st ≠ .idle := by rw [hst.1]; simp
+            obtain ⟨_, op0, hp0, _, _, _⟩ := busy_job hI hS w hmem.1 hbusy hj hjin
+            have hop0 : op0 = op := by
+              have := nextNotDone_of_processing (hS.ops j hj) hp0
+              rw [hnn] at this; simpa using this.symm
+            subst hop0
+            obtain ⟨_, _, _, _, hpst⟩ := processing?_split' hp0
+            apply one j (j.replaceOp (opRec oc s.time (s.time + d) m0.id)) hj rfl rfl
+            exact (hT j hj).replace_proc w hI hj (hS.ops j hj) hopm ⟨by simp [opRec, hocj], by simp [opRec, hoci]⟩
+              (by simp [opRec, hmach]) (by simp [opRec]) (fun x hx => Or.inl (by simpa [opRec] using hx.symm)) (Or.inl hnn)
+              (fun hi => by rw [hpst] at hi; cases hi) rfl
+          | workingToOutage =>
+            obtain ⟨mc, outs, j, op, _, _, _, hj, htj, hp, rfl⟩ := workingToOutage_spec h
+            obtain ⟨_, _, hl, _, hpst⟩ := processing?_split' hp
+            have hopm : op ∈ j.ops := by rw [hl]; simp
+            apply one j (j.replaceOp { op with stop := some (s.time + occupiedFor outs) }) hj rfl rfl
+            exact (hT j hj).replace_proc (rec := { op with stop := some (s.time + occupiedFor outs) }) w hI hj (hS.ops j hj) hopm
+              ⟨rfl, rfl⟩ rfl (by simp [hpst])
+              (fun x hx => Or.inr ⟨hpst, hx⟩) (Or.inr hpst) (fun hi => by rw [hpst] at hi; cases hi) rfl
+          | outageToIdle =>
+            obtain ⟨j, op, mc, rest, b1, b2, hstore, hj, hp, _, _, _, _, rfl⟩ := outageToIdle_spec h
+            have hst := machineHandler_outageToIdle hmh
+            have hjin : j.id ∈ m0.buffer.store := by rw [hstore]; simp
+            have hbusy : m0.st ≠ .idle := by rw [hst.1]; simp
+            obtain ⟨_, op0, hp0, hm0', _, _⟩ := busy_job hI hS w hmem.1 hbusy hj hjin
+            rw [hp] at hp0; simp at hp0; subst hp0
+            obtain ⟨_, _, hl, _, hpst⟩ := processing?_split' hp
+            have hopm : op ∈ j.ops := by rw [hl]; simp
+            obtain ⟨m', hm', hk⟩ := hmt m0 hmem.1
+            simp only [mKey, Prod.mk.injEq] at hk
+            apply one j ((j.replaceOp { op with stop := some s.time, st := .done }).at m0.post.id) hj rfl rfl
+            exact (hT j hj).replace_done w hI hj (hS.ops j hj) hopm hpst rfl
+              ⟨m', hm', by rw [hk.1, hm0'], by simp [JobState.at, hk.2.2.2]⟩
+    · refine ⟨?_, harr.tail.order⟩
+      intro b hb hn t ht hcb hst o ho
+      rw [htr] at ht; rw [htime]
+      exact harr.due b (by simp [hb]) hn t ht hcb hst o ho
+  | t tid =>
+    obtain ⟨t0, t', ht0, hid0, hid', hbid, htr, hwait, heff⟩ := agv_effectT hc h0
+    have htn := hs.trNodup w
+    have ht'mem : t' ∈ s'.transports := by
+      rw [htr]; exact (mem_replaceTransport htn ht0 hid' t').mpr (Or.inl rfl)
+    -- an AGV other than the acting one is untouched
+    have other : ∀ t ∈ s.transports, t.id ≠ t0.id → t ∈ s'.transports := by
+      intro t ht hne
+      rw [htr]; exact (mem_replaceTransport htn ht0 hid' t).mpr (Or.inr ⟨ht, hne⟩)
+    -- a job not lying on the acting AGV keeps its clauses
+    have keep : ∀ j' ∈ s.jobs, j'.loc ≠ t0.buffer.id → JobOK inst s' j' := by
+      intro j' hj' hne
+      refine (hT j' hj').keep (by omega) hmt ?_
+      intro t ht hl
+      by_cases e : t.id = t0.id
+      · have : t = t0 := eq_of_mem_of_key_eq (key := fun (y : TransportState) => y.id) htn ht ht0 e
+        subst this; exact absurd hl hne
+      · exact ⟨t, other t ht e, rfl, rfl⟩
+    refine ⟨?_, ?_⟩
+    · cases heff with
+      | still hst0 _ hjobs =>
+        intro j' hj'
+        rw [hjobs] at hj'
+        apply keep j' hj'
+        intro hl
+        exact hst0 (carrier_claims w hI hP hj' ht0 hl).1
+      | pickup j src dst tt r1 hn hst0 hj htj hdrop htt hsrc hocc hjobs =>
+        have hclaim : t0.job = some j.id := by
+          have := hgs.route.own tr (by simp) hn t0 ht0 (by rw [hc, hid0])
+          rw [← this]; exact htj
+        intro j' hj'
+        rw [hjobs] at hj'
+        rcases (mem_replaceJob hjn hj (by simp [JobState.at]) j').mp hj' with rfl | ⟨hj0, _⟩
+        · exact (hT j hj).pickup w hI hP hj (hS.ops j hj) ht0 hst0 hclaim hsrc hdrop htt ht'mem hbid hocc
+        · apply keep j' hj0
+          intro hl
+          exact hst0 (carrier_claims w hI hP hj0 ht0 hl).1
+      | deliverM j cur pick ms hn hloc hms hj hin hjobs =>
+        have hjl := stored_loc w hI hj (mem_allBufs_of_transport ht0) hin
+        obtain ⟨hst0, hown0⟩ := carrier_claims w hI hP hj ht0 hjl
+        obtain ⟨ms', hms', hk⟩ := hmt ms hms
+        intro j' hj'
+        rw [hjobs] at hj'
+        rcases (mem_replaceJob hjn hj (by simp [JobState.at]) j').mp hj' with rfl | ⟨hj0, hne⟩
+        · exact (hT j hj).deliver w hI hP hj (hS.ops j hj) ht0 hin hms hloc
+            (fun o ho => harr.due tr (by simp) hn t0 ht0 (by rw [hc, hid0]) hst0 o ho) hms' hk (by omega)
+        · apply keep j' hj0
+          intro hl
+          have := (carrier_claims w hI hP hj0 ht0 hl).2
+          rw [hown0] at this
+          simp at this
+          exact hne this.symm
+      | deliverB j cur pick b hn hloc hj hin hjobs =>
+        have hjl := stored_loc w hI hj (mem_allBufs_of_transport ht0) hin
+        obtain ⟨hst0, hown0⟩ := carrier_claims w hI hP hj ht0 hjl
+        have hno : j.noOpIdle = true := by
+          obtain ⟨c, p, dr, e1, hdrop⟩ := hP.route.route t0 ht0 j.id hown0 j hj rfl
+          rw [hloc] at e1
+          simp only [TLoc.route.injEq] at e1
+          rcases hdrop with ⟨hno, _⟩ | ⟨_, op, _, e3⟩
+          · exact hno
+          · rw [← e1.2.2] at e3; cases e3
+        intro j' hj'
+        rw [hjobs] at hj'
+        rcases (mem_replaceJob hjn hj (by simp [JobState.at]) j').mp hj' with rfl | ⟨hj0, hne⟩
+        · exact (hT j hj).deliver_out hno _
+        · apply keep j' hj0
+          intro hl
+          have := (carrier_claims w hI hP hj0 ht0 hl).2
+          rw [hown0] at this
+          simp at this
+          exact hne this.symm
+    · refine ⟨?_, harr.tail.order⟩
+      intro b hb hn t ht hcb hst o ho
+      rw [htime]
+      rw [htr] at ht
+      rcases (mem_replaceTransport htn ht0 hid' t).mp ht with rfl | ⟨ht1, hne⟩
+      · -- the acting AGV: only a "keep waiting" may precede its delivery in the batch
+        exfalso
+        have hord := (List.pairwise_cons.mp harr.order).1 b hb hn (by rw [hc, hcb, hid', hid0])
+        exact hwait hord hst
+      · exact harr.due b (by simp [hb]) hn t ht1 hcb hst o ho
+
 end JSL
